@@ -113,7 +113,7 @@ func NewOperation(s *specification.Operation, components Componenter, cfg Config
 			requestBody := rBody.Value()
 			content := requestBody.Content
 			if jsonContent, ok := content.Get("application/json"); ok {
-				body, ims, err := NewSchema(jsonContent.V.Schema, components, cfg)
+				body, ims, err := NewSchema(jsonContent.V.Schema, NamedComponenter{Componenter: components, Name: string(name) + "ParamsBody"}, cfg)
 				if err != nil {
 					return nil, nil, fmt.Errorf("request body: %w", err)
 				}
